@@ -15,9 +15,13 @@ RULE = ("Hypothesis generates (tree, root list, per-root mindepth/maxdepth/bfs|d
         "flipped) and compares the row multiset with the spec-derived model, plus bfs level order, dfs "
         "subtree contiguity and root order. Non-trivial = tree depth >= 2 and (a depth window that excludes "
         "some entry, or >= 2 roots, or a non-regular entry, or an absolute root); distinct by canonical JSON "
-        "of the whole case.")
+        "of the whole case. One case in eight uses a specially spelled root instead: `/` or the default root with cwd `/` "
+        "(inside a chroot jail), or a relative directory called `~t` (plain, quoted, with a sub-directory) - same window oracle; one in sixteen puts the same sub-tree on 2-3 fresh tmpfs "
+        "mounts (private mount namespace, so inode numbers repeat across file systems) and searches them from above or as "
+        "separate roots.")
 ASSUMPTIONS = [
-    "roots are disjoint directories of the generated tree (the property says disjoint); the root `/` is not tested",
+    "roots are disjoint directories of the generated tree (the property says disjoint)",
+    "the root `/` is searched inside a chroot jail, where `/` is a small private tree (binary, libraries, the generated tree)",
     "row order among siblings (readdir order) is not asserted",
     "the binary is the release build of /repo's working tree; trees live on /tmp (ext4)",
 ]
@@ -77,8 +81,155 @@ def strategy_(draw, tier):
     return {"tree": spec, "roots": roots}
 
 
+# ---------------------------------------------------------------- roots with a special spelling: `/`, `~name`
+
+_jail = {"pid": None, "path": None, "n": 0}
+
+
+def jail():
+    if _jail["pid"] != os.getpid() or not _jail["path"] or not os.path.isdir(_jail["path"]):
+        _jail.update(pid=os.getpid(), path=runner.make_jail(lambda j: os.makedirs(j + "/w")), n=0)
+    return _jail["path"]
+
+
+@st.composite
+def special_roots_(draw, tier):
+    spec = trees.grow(draw, [3, 5, 8, 12], trees.names("plain"), st.just({"t": "f", "c": ""}), dir_ratio=(1, 2), max_depth=4)
+    kind = draw(st.sampled_from(["slash", "slash", "slash-cwd", "tilde-name", "tilde-name-quoted", "tilde-sub"]))
+    mn = draw(st.sampled_from([None, None, 1, 2, 3]))
+    mx = draw(st.sampled_from([None, 1, 2, 3, 4]))
+    return {"kind": "special-root", "tree": spec, "root": kind, "mn": mn, "mx": mx, "mode": draw(st.sampled_from(["", "bfs", "dfs"]))}
+
+
+def check_special(case):
+    """The window is counted from the root however the root is spelled: `/` (inside a chroot, so that `/` is a small
+    private tree) and a relative directory whose name begins with `~` (an ordinary name, no home directory)."""
+    out = Outcome()
+    j = jail()
+    _jail["n"] += 1
+    top = "/w/c%d" % _jail["n"]
+    opts = ((" mindepth %d" % case["mn"]) if case["mn"] else "") + ((" maxdepth %d" % case["mx"]) if case["mx"] else "") + \
+           ((" " + case["mode"]) if case["mode"] else "")
+    try:
+        kind = case["root"]
+        if kind.startswith("slash"):
+            # everything in the jail is the tree: binary, libraries, /w/cN/... - the model is os.walk of the jail
+            os.makedirs(j + top)
+            trees.materialize(j + top, case["tree"])
+            walk_root, shown, cwd = j, ("/" if kind == "slash" else "."), "/"
+            root_text_ = "/" if kind == "slash" else None
+        else:
+            os.makedirs(j + top + "/~t/sub")
+            trees.materialize(j + top + "/~t/sub", case["tree"])
+            open(j + top + "/~t/f", "w").close()
+            sub = kind == "tilde-sub"
+            walk_root = j + top + ("/~t/sub" if sub else "/~t")
+            shown = "~t/sub" if sub else "~t"
+            cwd = top
+            root_text_ = "'%s'" % shown if kind == "tilde-name-quoted" else shown
+        q = "path" + (" from " + root_text_ if root_text_ else "") + opts + " into list"
+        res = runner.run_jailed(j, [q], cwd=cwd, extra_env={"HOME": "/w"})
+        out.evals += 1
+        if res.wall_timeout:
+            out.inconclusive = True
+            return out
+        want = collections.Counter()
+        for dp, dn, fn in os.walk(walk_root):
+            rel = dp[len(walk_root):].strip("/")
+            level = (rel.count("/") + 2) if rel else 1
+            for n in dn + fn:
+                if (not case["mn"] or level >= case["mn"]) and (not case["mx"] or level <= case["mx"]):
+                    prefix = shown.rstrip("/") if shown != "/" else ""
+                    want[prefix + "/" + (rel + "/" if rel else "") + n] += 1
+        if res.status != 0 or res.sig is not None or res.err:
+            out.add("C01/special-root/%s/status" % kind, query=q, status=res.status, signal=res.sig, stderr=res.err[:300])
+            return out
+        got = collections.Counter(r[0] for r in runner.rows(res.out, 1))
+        if got != want:
+            out.add("C01/special-root/%s/rows" % kind, query=q, missing=sorted((want - got).elements())[:6],
+                    extra=sorted((got - want).elements())[:6])
+        out.nontrivial = bool(case["mn"] or case["mx"]) and bool(want)
+        out.classes = ["special-root", "root=" + kind] + (["window"] if (case["mn"] or case["mx"]) else [])
+        out.sample = {"query": q, "rows": sum(got.values())}
+    finally:
+        runner.rmtree(j + top)
+    return out
+
+
+# ---------------------------------------------------------------- a tree that spans several file systems
+
+@st.composite
+def mounts_(draw, tier):
+    sub = trees.grow(draw, [2, 3, 5, 8], trees.names("plain"), st.just({"t": "f", "c": ""}), dir_ratio=(1, 2), max_depth=3)
+    return {"kind": "mounts", "n": draw(st.sampled_from([2, 2, 3])), "sub": sub, "mode": draw(st.sampled_from(["", "bfs", "dfs"])),
+            "roots": draw(st.sampled_from(["dot", "dot", "each", "each-reversed"])), "mx": draw(st.sampled_from([None, None, 2, 3]))}
+
+
+def check_mounts(case):
+    """The same sub-tree created on n fresh tmpfs mounts (private mount namespace): inode numbers repeat from one
+    file system to the next, every entry must still be listed exactly once."""
+    out = Outcome()
+    cdir = runner.new_case_dir()
+    base = os.path.join(cdir, "t")
+    os.mkdir(base)
+    try:
+        names = ["m%d" % i for i in range(1, case["n"] + 1)]
+        script = ["set -e"]
+        rels = []
+        for rel, node, _ in trees.walk(case["sub"]):
+            rels.append(("/".join(rel), node["t"] == "d"))
+        for m in names:
+            os.mkdir(os.path.join(base, m))
+            script.append('mount -t tmpfs none "$1/%s"' % m)
+            for r, isdir in rels:
+                script.append(('mkdir -p "$1/%s/%s"' if isdir else ': > "$1/%s/%s"') % (m, r.replace('"', '')))
+        script.append('shift; exec "$@"')
+        wrap = ["unshare", "-m", "sh", "-c", "\n".join(script), "sh", base]
+        opts = ((" maxdepth %d" % case["mx"]) if case["mx"] else "") + ((" " + case["mode"]) if case["mode"] else "")
+        if case["roots"] == "dot":
+            q = "path from ." + opts + " into list"
+            lvl0 = 1
+            want = collections.Counter("./" + m for m in names)
+            pref = {m: "./" + m for m in names}
+        else:
+            order = names if case["roots"] == "each" else names[::-1]
+            q = "path from " + ", ".join(m + opts for m in order) + " into list"
+            lvl0 = 0
+            want = collections.Counter()
+            pref = {m: m for m in names}
+        for m in names:
+            for r, _ in rels:
+                level = lvl0 + r.count("/") + 1
+                if not case["mx"] or level <= case["mx"]:
+                    want[pref[m] + "/" + r] += 1
+        if case["mx"] and lvl0 == 1 and case["mx"] < 1:
+            want = collections.Counter()
+        res = runner.run([q], cwd=base, wrap=wrap)
+        out.evals += 1
+        if res.wall_timeout:
+            out.inconclusive = True
+            return out
+        if b"unshare" in res.err or b"mount:" in res.err:
+            out.classes = ["mounts-unavailable"]      # no privilege for a mount namespace here: nothing asserted
+            return out
+        if res.status != 0 or res.sig is not None or res.err:
+            out.add("C01/mounts/status", query=q, status=res.status, signal=res.sig, stderr=res.err[:300])
+            return out
+        got = collections.Counter(r[0] for r in runner.rows(res.out, 1))
+        if got != want:
+            out.add("C01/mounts/rows/%s" % ("missing" if want - got else "extra"), query=q, missing=sorted((want - got).elements())[:8],
+                    extra=sorted((got - want).elements())[:8], file_systems=case["n"])
+        out.nontrivial = any(isdir for _, isdir in rels)
+        out.classes = ["several-file-systems", "mounts=%d" % case["n"], "roots=" + case["roots"]]
+        out.sample = {"query": q, "rows": sum(got.values())}
+    finally:
+        runner.rmtree(cdir)
+    return out
+
+
 def strategy(tier):
-    return strategy_(tier)
+    return st.sampled_from(range(16)).flatmap(
+        lambda i: special_roots_(tier) if i in (0, 1) else mounts_(tier) if i == 2 else strategy_(tier))
 
 
 def root_text(r, base):
@@ -157,6 +308,10 @@ def eff_mode(r, flip):
 
 
 def check(case):
+    if case.get("kind") == "special-root":
+        return check_special(case)
+    if case.get("kind") == "mounts":
+        return check_mounts(case)
     out = Outcome()
     cdir = runner.new_case_dir()
     base = os.path.join(cdir, "t")
